@@ -48,6 +48,7 @@ typedef struct {
     int      pick_order;             /* 0 fifo, 1 lifo, 2 random */
     int      tw_descendants;         /* taskwait may run non-child descendants */
     uint32_t p_preempt;              /* /2^32 per instrumented access (preempt build only) */
+    uint32_t p_shared;               /* /65536 per access to a location that >= 2 virtual threads have touched (preempt build) */
     uint32_t p_burst;                /* /65536: a *_BEGIN event of a task body schedules a preemption within the next burst_len accesses */
     uint32_t burst_len;
     uint64_t max_steps;              /* scheduler decisions budget */
@@ -80,6 +81,8 @@ int64_t simclock_now(void);
 void simomp_hook_yield(void);             /* called from hook events */
 void simomp_preempt_point(void);          /* called from tsan callbacks */
 void simomp_preempt_slow(void);
+void simomp_preempt_now(void);             /* preempt at this very access (conflict-directed) */
+extern int g_cur_fiber_id;
 void simomp_preempt_soon(void);            /* called from hook events: bias preemptions into freshly started task bodies */
 extern uint64_t g_next_preempt;
 int  simomp_cur_fiber(void);              /* dense fiber id */
